@@ -97,6 +97,10 @@ def validate(c, traces, chunk_lines=5000, parallel=3):
     return ends, rej
 
 
+def compact(e):
+    return {k: v for k, v in e.items() if v not in ("", 0, False, []) or k in ("ok", "n", "eof")}
+
+
 def suite_of(name):
     return re.sub(r"[-0-9s]+$", "", re.sub(r"-\d+(-\w+)?$", "", name)) or name
 
@@ -145,7 +149,7 @@ def run(c):
     for x in rej[:5]:
         ev = x["event"] or {}
         what = "call log of the real streamingdata code is not a behaviour of Stream at event %d of trace %s: %s" % (
-            x["index"], x["trace"], json.dumps(full[x["trace"]][x["index"]] if x["index"] >= 0 else None))
+            x["index"], x["trace"], json.dumps(compact(full[x["trace"]][x["index"]]) if x["index"] >= 0 else None)[:1200])
         if x["invariant"]:
             what += " (invariant %s)" % x["invariant"]
         c.report("trace-rejected:%s:%s%s" % (suite_of(x["trace"]), ev.get("ev"), ":" + x["invariant"] if x["invariant"] else ""),
